@@ -5,7 +5,7 @@
 From Hive.Base Require Import Prelude.
 From Hive.Model Require Import Types KernelBase SimOps States Step Harness.
 From Hive.Gen Require Import Kernels.
-From Hive.Proofs Require Import VehFrame Macro Guards Count CountInv DispInv PlaceInv LedgerInv AcctInv.
+From Hive.Proofs Require Import VehFrame Macro Guards Count CountInv DispInv PlaceInv LedgerInv AcctInv Walk RouteInv.
 Local Open Scope Z_scope.
 
 Definition all_entries {A} (f : positive -> A -> bool) (m : pmap A) : bool := forallb (fun kv => f (fst kv) (snd kv)) (PM.elements m).
@@ -111,6 +111,45 @@ Proof.
   - intros k v F. apply placed_b_sound. exact (all_entries_sound _ _ HV k v F).
 Qed.
 
+(* ---- C07 routes ---- *)
+Definition on_route_b (s : Sim) (v : Vehicle) : bool :=
+  match v_state v with
+  | Repositioning r | ServicingTrip _ _ r => match walk (v_geoid v) r with Some _ => true | None => false end
+  | DispatchTrip rid r =>
+      match walk (v_geoid v) r with
+      | Some h => match find rid (requests s) with
+                  | Some q => if opt_pos_eqb (r_disp q) (Some (v_id v)) then Pos.eqb h (r_geoid q) else true
+                  | None => true end
+      | None => false end
+  | DispatchStation sid _ r =>
+      match walk (v_geoid v) r, find sid (stations s) with Some h, Some x => Pos.eqb h (s_geoid x) | _, _ => false end
+  | DispatchBase bid r =>
+      match walk (v_geoid v) r, find bid (bases s) with Some h, Some b => Pos.eqb h (b_geoid b) | _, _ => false end
+  | _ => true
+  end.
+Lemma on_route_b_sound s v : on_route_b s v = true -> on_route s v.
+Proof.
+  unfold on_route_b, on_route. destruct (v_state v); auto.
+  - destruct (walk (v_geoid v) route); [eauto|discriminate].
+  - destruct (walk (v_geoid v) route) as [h|]; [|discriminate]. intro H. exists h. split; [reflexivity|]. intros q F D. rewrite F in H.
+    rewrite (proj2 (opt_pos_eqb_eq _ _) D) in H. apply Pos.eqb_eq in H. exact H.
+  - destruct (walk (v_geoid v) route); [eauto|discriminate].
+  - destruct (walk (v_geoid v) route) as [h|]; [|discriminate]. destruct (find sid (stations s)) as [x|]; [|discriminate].
+    intro H. apply Pos.eqb_eq in H. eauto.
+  - destruct (walk (v_geoid v) route) as [h|]; [|discriminate]. destruct (find bid (bases s)) as [b|]; [|discriminate].
+    intro H. apply Pos.eqb_eq in H. eauto.
+Qed.
+Definition inv_route_b (s : Sim) : bool :=
+  (0 <? dt s) && all_entries (fun k st => Pos.eqb (s_id st) k) (stations s) && all_entries (fun k b => Pos.eqb (b_id b) k) (bases s)
+  && all_entries (fun _ v => on_route_b s v) (vehicles s).
+Lemma inv_route_b_sound s : inv_route_b s = true -> Inv_route s.
+Proof.
+  unfold inv_route_b. intro H. rewrite !andb_true_iff in H. destruct H as [[[D HS] HB] HV]. split; [apply Z.ltb_lt; exact D|]. split; [|split].
+  - intros k st F. apply Pos.eqb_eq. exact (all_entries_sound _ _ HS k st F).
+  - intros k b F. apply Pos.eqb_eq. exact (all_entries_sound _ _ HB k b F).
+  - intros k v F. apply on_route_b_sound. exact (all_entries_sound _ _ HV k v F).
+Qed.
+
 (* ---- op_ok ---- *)
 Fixpoint nodup_b (l : list positive) : bool :=
   match l with [] => true | x :: t => negb (existsb (Pos.eqb x) t) && nodup_b t end.
@@ -143,7 +182,7 @@ Proof. reflexivity. Qed.
 (* ---- what the harness evaluates per case ---- *)
 Definition step_ops (ops : list (XOp * tok)) : option (list Op) :=
   fold_right (fun x acc => match fst x, acc with XStep o, Some l => Some (o :: l) | _, _ => None end) (Some []) ops.
-Definition all_inv_b (s : Sim) : bool := vkeys_b s && inv_counts_b s && inv_disp_b s && inv_place_b s.
+Definition all_inv_b (s : Sim) : bool := vkeys_b s && inv_counts_b s && inv_disp_b s && inv_place_b s && inv_route_b s.
 (* ---- C03 ledger (evaluated as a consistency check of the conclusion; the premise is "nothing filed yet") ---- *)
 Definition rstatus_eqb (a b : rstatus) : bool :=
   match a, b with Unknown, Unknown | Waiting, Waiting | PickedUp, PickedUp | Cancelled, Cancelled => true | _, _ => false end.
@@ -191,16 +230,17 @@ Definition premises_case (env : Env) (s : Sim) (ops : list (XOp * tok)) (_ : Z) 
   end.
 
 (* premises decided true => every history theorem applies (this is what code 2 / 3 certify about the case) *)
-Theorem premises_apply env s os : (forall g, e_fence env g = true) -> all_inv_b s && nil_log_b s && forallb op_ok_b os = true ->
-  let s' := fold_left (step_op env) os s in vkeys s' /\ Inv_counts s' /\ Inv_disp s' /\ Inv_place s' /\ Inv_ledger (init_of s) s' /\
+Theorem premises_apply env s os : (forall g, e_fence env g = true) -> (forall a b, walk (p_geoid a) (e_route env a b) = Some (p_geoid b)) ->
+  all_inv_b s && nil_log_b s && forallb op_ok_b os = true ->
+  let s' := fold_left (step_op env) os s in vkeys s' /\ Inv_counts s' /\ Inv_disp s' /\ Inv_place s' /\ Inv_route s' /\ Inv_ledger (init_of s) s' /\
   (forall k v0, find k (vehicles s) = Some v0 -> exists v, find k (vehicles s') = Some v /\ vacct (log s') k v0 v) /\
   (forall k x0, find k (stations s) = Some x0 -> exists x, find k (stations s') = Some x /\ sacct (log s') k x0 x).
 Proof.
-  intros Hf H. unfold all_inv_b in H. rewrite !andb_true_iff in H. destruct H as [[[[[K C] D] P] NL] O].
-  apply vkeys_b_sound in K. apply inv_counts_b_sound in C. apply inv_disp_b_sound in D. apply inv_place_b_sound in P. apply ops_ok_b_sound in O.
+  intros Hf Hr H. unfold all_inv_b in H. rewrite !andb_true_iff in H. destruct H as [[[[[[K C] D] P] Rt] NL] O].
+  apply vkeys_b_sound in K. apply inv_counts_b_sound in C. apply inv_disp_b_sound in D. apply inv_place_b_sound in P. apply inv_route_b_sound in Rt. apply ops_ok_b_sound in O.
   assert (L : log s = []) by (unfold nil_log_b in NL; destruct (log s); [reflexivity|discriminate]).
   cbv zeta. split; [apply (counts_invariant env os s K C O)|]. split; [apply (counts_invariant env os s K C O)|].
-  split; [apply (disp_invariant env Hf os s K D O)|]. split; [apply (place_invariant env os s K P O)|].
+  split; [apply (disp_invariant env Hf os s K D O)|]. split; [apply (place_invariant env os s K P O)|]. split; [apply (route_invariant env Hr os s K Rt O)|].
   split; [apply (ledger_invariant env (init_of s) os s K (Inv_ledger_initial s L) O)|].
   apply (books_over_histories env os s K (proj1 C) O L).
 Qed.
